@@ -522,9 +522,52 @@ def relevant(ob, prop, unit_res, unit):
     return prop in fp
 
 
+def replay_main(prop, path):
+    """`./check Cxx --replay <file>`: show what the replay file records and reproduce it against the current tree:
+    the unit is re-extracted and re-verified and the recorded obligation must be rejected again; a recorded concrete
+    input (replay search / bounded stand-in) is re-run on the real code.  exit 1 = reproduced, 0 = no longer fails,
+    2 = cannot tell."""
+    rec = json.load(open(path))
+    print("replay of %s: property=%s unit=%s" % (path, rec.get("property"), rec.get("unit")))
+    print("  failed obligation: %s" % rec.get("failed_obligation"))
+    print("  where: %s   source text: %s" % (rec.get("where"), rec.get("source_text")))
+    print("  verifier: %s - %s" % (rec.get("verifier"), rec.get("verifier_message")))
+    if rec.get("concrete_input"):
+        print("  concrete input on the real code: %s" % rec["concrete_input"])
+        print("  obtained with: %s" % rec.get("replay_cmd"))
+    import replay as replay_mod
+    uname = rec.get("unit", "")
+    if uname.endswith("_bounded"):
+        b = replay_mod.bounded(uname[:-len("_bounded")])
+        print("  re-run of the bounded stand-in: %s%s" % (b["outcome"], (" :: " + b["input"]) if b["input"] else ""))
+        if b["kind"] == "state":
+            print("VIOLATION property=%s replay=%s" % (prop, os.path.abspath(path)))
+        sys.exit(1 if b["kind"] == "state" else 0 if b["kind"] is None and b["sequences"] else 2)
+    units = [u for u in load_units()["units"] if u["name"] == uname]
+    if not units:
+        print("  unit %s is not registered" % uname)
+        sys.exit(2)
+    r = run_unit(units[0], "quick")
+    ids = [ob["id"] for ob in r["failed"]] + [ob["id"] for ob in r.get("failed_findings_variant", [])]
+    if rec.get("failed_obligation") in ids:
+        print("  reproduced: the verifier rejects this obligation again on the current tree")
+        if uname in replay_mod.SEARCHES and not os.environ.get("VERIF_NO_REPLAY"):
+            sr = replay_mod._run(*replay_mod.SEARCHES[uname])
+            print("  replay search on the real code: %s%s" % (sr["outcome"], (" :: " + sr["found"]) if sr["found"] else ""))
+        print("VIOLATION property=%s replay=%s%s" % (prop, os.path.abspath(path), "" if rec.get("concrete_input") else " no-failing-input-found"))
+        sys.exit(1)
+    if r["undecided"]:
+        print("  cannot tell: %s" % r["undecided"][0][:300])
+        sys.exit(2)
+    print("  not reproduced: the obligation is discharged on the current tree")
+    sys.exit(0)
+
+
 def main():
     args = sys.argv[1:]
     prop = args[0]
+    if "--replay" in args:
+        return replay_main(prop, args[args.index("--replay") + 1])
     tier = os.environ.get("VERIF_TIER", "quick")
     if "--tier" in args:
         tier = args[args.index("--tier") + 1]
